@@ -34,7 +34,7 @@ RULE = ("histories of 1..40 ops over a connected channel pair: local windows fro
         "loseConnection / deliver-oldest (either direction) / drain-to-quiescence; a third of the cases also hand in packets "
         "out of band (WINDOW_ADJUST of any size, DATA / EXTENDED_DATA inside and outside the window, CLOSE, also after the "
         "channel is gone); 30 % of the cases run on connections that carry other channels, so that the two ends number the "
-        "channel differently; + one case in six with re-entrant application hooks (startWriting / stopWriting / dataReceived / extReceived "
+        "channel differently; + one case in six with re-entrant application hooks (channelOpen of the locally opened channel / startWriting / stopWriting / dataReceived / extReceived "
         "calling write / writeExtended / writeSequence / loseConnection; oracle-only); + a few cases with default / large windows "
         "and max packets (up to 200000 / 65536) and writes of 32767..40000 bytes (thorough: up to 140000); "
         "distinct = (window class, channel numbering, op kinds, iterable kinds, hooks, packet/event kinds seen, "
@@ -171,6 +171,11 @@ class _Chan(channel.SSHChannel):
         self.xlog.append("%se%d:%s" % (self.side, dataType, hx(data)))
         self._fire("ext")
 
+    def channelOpen(self, specificData):
+        # the application starts writing as soon as it is told the channel is open (seeded change C36-4: the peer's
+        # initial window was credited a second time when channelOpen() left data buffered)
+        self._fire("open")
+
     def startWriting(self):
         self._fire("start")
 
@@ -246,10 +251,15 @@ class _Pair:
             self.conn["b"].packetReceived(*self.q["b"].pop(0))
             self.conn["a"].packetReceived(*self.q["a"].pop(0))
         ca = _Chan("a", self.log, hooks=hooks["a"], localWindow=lwA, localMaxPacket=lmpA)
+        self.opening = bool(hooks["a"].get("open"))   # side a's channelOpen() writes / closes at once
+        self.chan = {"a": ca}
+        ca.call = (lambda act: self.call("a", act))
         self.conn["a"].openChannel(ca)
         self.conn["b"].packetReceived(*self.q["b"].pop(0))
-        self.conn["a"].packetReceived(*self.q["a"].pop(0))
-        assert not self.q["a"] and not self.q["b"]
+        del self.log[:]
+        self.conn["a"].packetReceived(*self.q["a"].pop(0))     # OPEN_CONFIRMATION -> channelOpen() -> hook "open"
+        assert self.opening or (not self.q["a"] and not self.q["b"])
+        self.open_log = ",".join(self.log) if self.log else "-"
         self.chan = {"a": ca, "b": self.conn["b"].made}
         self.ids = {"a": ca.id, "b": self.chan["b"].id}
         assert self.ids == {"a": ua + both, "b": ub + both}
@@ -342,7 +352,7 @@ def run_impl(c):
     p = _Pair(c["cfg"], tuple(c.get("pre", (0, 0, 0))), c.get("hooks"))
     segs = [p.op(o) for o in c["ops"]]
     return ("|".join(segs) if segs else "-") + " A=" + p.state("a") + " B=" + p.state("b") + \
-        " Q=%d,%d" % (len(p.q["b"]), len(p.q["a"]))
+        " Q=%d,%d" % (len(p.q["b"]), len(p.q["a"])) + (" O=" + p.open_log if p.opening else "")
 
 
 def model_line(c):
@@ -513,6 +523,11 @@ def oracle(c, out):
         return {"key": "harness", "detail": "segment count"}
     w = _Watch(c)
     try:
+        if " O=" in out:                              # what side a's channelOpen() did and sent, before the first op
+            w.where = "channelOpen"
+            seg = out.split(" O=")[1].split(" ")[0]
+            w.tokens([] if seg == "-" else seg.split(","))
+            w.settle()
         for n, (o, seg) in enumerate(zip(c["ops"], segs)):
             w.where = f"op {n} {o}"
             if o == "z":
@@ -699,6 +714,9 @@ def _gen_hooks(rng):
             h["stop"] = [_hook_actions(rng, data, s, closer) for _ in range(rng.choice([1, 1, 2]))]
         if rng.random() < 0.15:
             h["ext"] = [_hook_actions(rng, data, s, closer) for _ in range(rng.choice([1, 2]))]
+        if s == "a" and rng.random() < 0.3:
+            # channelOpen() of the locally opened channel writes at once - one group, often more than the peer's window
+            h["open"] = [[a_ for _ in range(rng.choice([1, 2, 3])) for a_ in _hook_actions(rng, data, s, closer)]]
         if h:
             hooks[s] = h
     if not hooks:
